@@ -99,6 +99,9 @@ package handler
 //@   let locked = on("lock", tw.mu)
 //@   ensures [finished-first-flushes-buffer] finished ==> calls(w.WriteHeader) == 1 && arg(w.WriteHeader, 0) == ite(at(locked, tw.wroteHeader), at(locked, tw.code), 200) && calls(w.Write) == 1 && arg(w.Write, 0) == ret(Bytes) && before(WriteHeader, Write) && calls(ErrorCtx) == 0 && tw.timedOut == at(locked, tw.timedOut) && before(locked, WriteHeader)
 //@   ensures [timeout-discards-buffer] calls(ErrorCtx) == 1 ==> tw.timedOut && calls(Bytes) == 0 && calls(w.Write) == 0 && calls(w.WriteHeader) == 0 && arg(ErrorCtx, 1) == w && before(on("lock", tw.mu), ErrorCtx)
+// the handler writes its headers into a map of the buffering writer's own: the real writer's header map is not
+// even looked at unless the handler finished in time (so nothing the handler set can accompany a timeout response)
+//@   ensures [real-headers-touched-only-when-finished] ret(Get) != "websocket" ==> (calls(ErrorCtx) == 1 ==> calls(w.Header) == 0) && (finished ==> calls(w.Header) == 1 && before(locked, w.Header))
 //@   ensures [one-outcome] ret(Get) != "websocket" ==> calls(Bytes) + calls(ErrorCtx) == 1 && calls("go (*timeoutHandler).ServeHTTP$1") == 1
 //@   ensures [context-released] ret(Get) != "websocket" ==> calls(cancelCtx) == 1
 
